@@ -912,6 +912,50 @@ fn gen_agg(rng: &mut Rng, thorough: bool, out: &mut Vec<String>) {
             out.push(format!("c07.agg {mode} {b} {w} {tv} {enc}"));
         }
     }
+    gen_agg_carry(rng, thorough, out);
+}
+
+/// The carry-keeping phase of the tree (`a.len() < OV::BITS`: `integer_add` + `sum.push(carry)`) with an
+/// odd tail row that is passed through several levels before it meets a (much wider) partial sum:
+/// input widths 4..8 bits well below the output width (BA16 / BA32), row counts 2^k - 1, 2^k, 2^k + 1
+/// for k = 1..5, columns at / next to the maximum so that every addition carries out
+/// (e.g. nine 4-bit rows of 15 -> 135: the tail row is added at depth 3 to a 7-bit sum of 120).
+fn gen_agg_carry(rng: &mut Rng, thorough: bool, out: &mut Vec<String>) {
+    for &(mode, b, w) in &[("sh", 32usize, 16usize), ("sh", 256, 32), ("mal", 32, 16), ("mal", 256, 32)] {
+        for tv in [4usize, 5, 7, 8] {
+            for k in 1..=6u32 {
+                for rows in [(1usize << k) - 1, 1 << k, (1 << k) + 1] {
+                    // quick: the proof-carrying mode for the small counts and every 2^k + 1 up to 33;
+                    // 63..65 rows (tail passed through six levels) for the wide values only
+                    if !thorough && (mode == "mal" && rows > 9 && (rows != (1 << k) + 1 || k == 6) || k == 6 && (tv < 7 || rows != 65)) {
+                        continue;
+                    }
+                    let maxv = (1u128 << tv) - 1;
+                    let zero_at = rng.usize_below(rows);
+                    let data: Vec<Vec<u128>> = (0..rows)
+                        .map(|r| {
+                            (0..12)
+                                .map(|c| match c {
+                                    0 => maxv,                                        // all rows at the maximum
+                                    1 => if r == zero_at { 0 } else { maxv },         // maximum with one zero
+                                    2 => if r % 2 == 0 { maxv } else { 1 },           // alternating max / 1
+                                    3 => if r % 2 == 0 { 1 } else { maxv },
+                                    4 => if r + 1 == rows { maxv } else { maxv - 1 }, // tail row differs from the rest
+                                    5 => if r + 1 == rows { 1 } else { maxv },        // tail row just enough to carry
+                                    6 => if r + 1 == rows { 0 } else { maxv },        // tail row adds nothing
+                                    7 => if r == 0 { 0 } else { maxv },
+                                    8 => 1u128 << (tv - 1),                           // only the top bit: carries at every level
+                                    _ => rand_bits(rng, tv),
+                                })
+                                .collect()
+                        })
+                        .collect();
+                    let enc = data.iter().map(|r| nat_list(r)).collect::<Vec<_>>().join("/");
+                    out.push(format!("c07.agg {mode} {b} {w} {tv} {enc}"));
+                }
+            }
+        }
+    }
 }
 
 #[test]
